@@ -43,6 +43,14 @@ def mutate(rng, prob, kw, d):
         kw["maxfun"] = min(kw["maxfun"], 60)
         d["maxfun"] = kw["maxfun"]
         d["regu"] = lam
+    if "h" in kw and kw.get("bounds") is not None and not kw.get("projections") and rng.random() < 0.5:
+        # a regulariser with random 'momentum' regression steps next to a box: points are moved by steps that the box cuts
+        up = dict(kw.get("user_params", {}) or {})
+        up["regression.num_extra_steps"] = 2
+        up["regression.momentum_extra_steps"] = True
+        kw["user_params"] = up
+        kw["npt"] = 2 * prob["n"] + 1
+        d.update(npt=kw["npt"], regression=2, momentum=True, user_params=up)
     # hard restarts whose later runs still improve: loose rhoend so that a run ends with budget left
     if d.get("restarts") != "soft" and rng.random() < 0.12:
         up = dict(kw.get("user_params", {}) or {})
